@@ -139,6 +139,21 @@ func (e *Env) seedCorpus(emit func(seedCase)) {
 			em(dec+sp+dec, sp+dec, "special-code-point-next-to-decomposable-text")
 		}
 	}
+	// a combining sequence whose marks are not in canonical order, placed across the sizes at
+	// which code tends to cut its input into windows or buffers: normalisation must see the
+	// whole sequence
+	for _, B := range []int{16, 32, 64, 128, 256, 512, 1024, 4096, 8192, 65536} {
+		for off := -5; off <= 1; off++ {
+			if B+off < 0 {
+				continue
+			}
+			s := strings.Repeat("x", B+off) + "a\u0301\u0323" + "tail e\u0323\u0302\u0301"
+			em(s, "pw", "unordered-marks-across-a-buffer-size-boundary")
+			if B <= 8192 {
+				em("m", s[8:], "unordered-marks-across-a-buffer-size-boundary")
+			}
+		}
+	}
 	// white space and invisible characters are part of the input: nothing may be trimmed,
 	// collapsed, case-folded or removed
 	for _, w := range []string{" ", "  ", "\t", "\n", "\r\n", "\u3000", "\u00a0", "\u200b", "\u200d", "\ufeff", "\u00ad", "\u2028", "\x00", "\u034f"} {
